@@ -1,0 +1,9 @@
+//go:build !verif
+
+// Package verifhook contains observation points used only by the external verification harness.
+// With the build tag "verif" off (the default) every function in this package is an empty, inlinable no-op.
+package verifhook
+
+func JoinRecv(join interface{}, side int, ok bool, metadata bool, isErr bool) {}
+
+func Side(leftDone bool) int { return 0 }
